@@ -370,6 +370,9 @@ func (p *projSpec) applyDiskEdit(root string, op *opSpec) {
 		os.Chtimes(filepath.Join(root, op.Path), t, t)
 	case "rewrite-same":
 		full := filepath.Join(root, op.Path)
+		if lst, err := os.Lstat(full); err == nil && lst.Mode()&os.ModeSymlink != 0 {
+			return // a link (to a file or to a directory) is left alone
+		}
 		st, err := os.Stat(full)
 		if err != nil {
 			return
